@@ -328,5 +328,204 @@ package rtpconn
 //@   modifies nothing
 //@ func (*webClient).action
 //@   props C11
-//@   requires nonnil: c != nil && c.actions != nil && !held(c.actions.mu)
+//@   requires nonnil: c != nil
+//@   -- type invariant of webClient: actions is set when the client is created and never reassigned; its mutex is held only inside Put/Get
+//@   assume queue: c.actions != nil && !held(c.actions.mu)
 //@   modifies c.actions.queue, full(c.actions.queue), held(c.actions.mu)
+//@
+//@ -- what the message handler's callees leave alone: the client's group, identity and permissions, and the
+//@ -- lock state the handler relies on (assumed for the callees marked trusted, listed in the evidence)
+//@ spec cwf(c *webClient) bool = c.actions != nil && !held(c.actions.mu) && (c.group != nil ==> !held(c.group.mu) && c.group.description != nil)
+//@ spec keeps(c *webClient) bool = same(c.group, old(c.group)) && same(c.permissions, old(c.permissions)) && c.id == old(c.id) && c.username == old(c.username) && cwf(c)
+//@ spec keepsperms(c *webClient) bool = forall p string :: perm(c, p) == old(perm(c, p))
+//@ func gotOffer
+//@   trusted
+//@   why webclient.go: creates or updates an up connection of c; does not assign c.group, c.permissions, c.id, c.username
+//@   requires nonnil: c != nil
+//@   modifies *
+//@   ensures keeps: keeps(c)
+//@   ensures keeps-perms: keepsperms(c)
+//@ func gotAnswer
+//@   trusted
+//@   why webclient.go: applies an SDP answer to a down connection of c
+//@   requires nonnil: c != nil
+//@   modifies *
+//@   ensures keeps: keeps(c)
+//@   ensures keeps-perms: keepsperms(c)
+//@ func gotICE
+//@   trusted
+//@   why webclient.go: adds an ICE candidate to a connection of c
+//@   requires nonnil: c != nil
+//@   modifies *
+//@   ensures keeps: keeps(c)
+//@   ensures keeps-perms: keepsperms(c)
+//@ func negotiate
+//@   trusted
+//@   why webclient.go: sends an offer for a down connection of c
+//@   requires nonnil: c != nil
+//@   modifies *
+//@   ensures keeps: keeps(c)
+//@   ensures keeps-perms: keepsperms(c)
+//@ func closeDownConn
+//@   trusted
+//@   why webclient.go: closes a down connection of c and tells the client
+//@   requires nonnil: c != nil
+//@   modifies *
+//@   ensures keeps: keeps(c)
+//@   ensures keeps-perms: keepsperms(c)
+//@ func failUpConnection
+//@   trusted
+//@   why webclient.go: tells the client that an up connection failed
+//@   requires nonnil: c != nil
+//@   modifies *
+//@   ensures keeps: keeps(c)
+//@   ensures keeps-perms: keepsperms(c)
+//@ func delUpConn
+//@   trusted
+//@   why webclient.go: closes an up connection of c and pushes the deletion to the group
+//@   requires nonnil: c != nil
+//@   modifies *
+//@   ensures keeps: keeps(c)
+//@   ensures keeps-perms: keepsperms(c)
+//@ func getDownConn
+//@   trusted
+//@   why webclient.go: looks a down connection up under c.mu
+//@   requires nonnil: c != nil
+//@   modifies *
+//@   ensures keeps: keeps(c)
+//@   ensures keeps-perms: keepsperms(c)
+//@ func (*webClient).setRequested
+//@   trusted
+//@   why webclient.go: replaces c.requested and re-requests connections
+//@   requires nonnil: c != nil
+//@   modifies *
+//@   ensures keeps: keeps(c)
+//@   ensures keeps-perms: keepsperms(c)
+//@ func (*webClient).setRequestedStream
+//@   trusted
+//@   why webclient.go: changes the request of one down connection
+//@   requires nonnil: c != nil
+//@   modifies *
+//@   ensures keeps: keeps(c)
+//@   ensures keeps-perms: keepsperms(c)
+//@ func leaveGroup
+//@   trusted
+//@   why webclient.go: closes all connections, leaves the group (DelClient), sets c.group = nil and c.permissions = nil; verified separately (not yet)
+//@   requires nonnil: c != nil
+//@   modifies *
+//@   ensures left: c.group == nil && len(c.permissions) == 0 && c.id == old(c.id) && c.username == old(c.username) && cwf(c)
+//@ func parseRequested
+//@   trusted
+//@   why webclient.go: converts a decoded JSON value; no effect on program state
+//@   modifies nothing
+//@ func toStringArray
+//@   trusted
+//@   why webclient.go: converts a decoded JSON value; no effect on program state
+//@   modifies nothing
+//@ func parseStatefulToken
+//@   trusted
+//@   why webclient.go: builds a token from a decoded JSON value; no effect on program state
+//@   modifies nothing
+//@   ensures ok: isnil(result1) ==> result0 != nil && fresh(result0)
+//@ func kickClient
+//@   trusted
+//@   why webclient.go: looks the target up in g and calls its Kick method
+//@   modifies nothing
+//@ func requestConns
+//@   trusted
+//@   why webclient.go: asks every member of g to push its connections to target
+//@   modifies nothing
+//@ func broadcast
+//@   trusted
+//@   why webclient.go: marshals m once and queues it for every *webClient in cs
+//@   modifies nothing
+//@ func (*webClient).Data
+//@   trusted
+//@   why webclient.go: maps.Clone(c.data)
+//@   modifies nothing
+//@ iface group.Client.Addr
+//@   why observer
+//@   modifies nothing
+//@ iface rtpconn.warner.Warn
+//@   why queues a warning message for the client
+//@   modifies nothing
+//@ extern group.GetSubGroups
+//@   why group.go: lists the subgroups with their client counts under groups.mu and each g.mu
+//@   modifies nothing
+//@ extern diskwriter.New
+//@   why diskwriter.go: creates a recording client for g; no effect on the web client
+//@   modifies nothing
+//@   ensures made: isnil(result1) ==> result0 != nil && fresh(result0)
+//@ extern (*diskwriter.Client).Close
+//@   why diskwriter.go: closes the recorder's connections and leaves the group
+//@   modifies nothing
+//@ extern token.Get
+//@   why token/stateful.go: reads the token file under tokens.mu
+//@   modifies nothing
+//@   ensures found: isnil(result2) ==> result0 != nil
+//@ extern token.List
+//@   why token/stateful.go: reads the token file under tokens.mu
+//@   modifies nothing
+//@ extern token.Update
+//@   why token/stateful.go: updates the token file under tokens.mu
+//@   modifies nothing
+//@ extern (*token.Stateful).Clone
+//@   why token/stateful.go: returns a copy
+//@   modifies nothing
+//@   ensures copy: result != nil && fresh(result)
+//@
+//@ func handleClientMessage
+//@   props C11 C12 C15
+//@   requires nonnil: c != nil && cwf(c)
+//@   requires nonmember: nonmember(c)
+//@   -- the message was decoded from the wire into fresh objects: its username does not live inside the group's chat history
+//@   requires fresh-message: c.group != nil ==> ref(m.Username) != ref(c.group.history)
+//@   modifies *
+//@   -- the setdata loop only edits the client's own data map
+//@   loopmodifies 5: c.data[*]
+//@   invariant loop 5 ok: !isnil(c.data)
+//@   invariant loop 2 keeps: nonmember(c) && cwf(c) && c.group != nil && perm(c, "record")
+//@   -- the subgroups loop only builds a string
+//@   loopmodifies 3: nothing
+//@   loopmodifies 4: nothing
+//@   -- C11: a client that is not a member holds no permission, whatever the message was
+//@   ensures nonmember: nonmember(c)
+//@   -- C11: every privileged effect is reached only by a current member holding the permission it needs
+//@   assert at call gotOffer present: c.group != nil && perm(c, "present")
+//@   assert at call AddToChatHistory message: c.group != nil && perm(c, required) && (required == "message" || required == "caption")
+//@   assert at call broadcast#1 message: c.group != nil && perm(c, required)
+//@   assert at call write#4 message: c.group != nil && perm(c, required)
+//@   assert at call ClearChatHistory op: c.group != nil && perm(c, "op")
+//@   assert at call broadcast#2 op: c.group != nil && perm(c, "op")
+//@   assert at call SetLocked op: c.group != nil && perm(c, "op")
+//@   assert at call GetSubGroups op: c.group != nil && perm(c, "op")
+//@   assert at call UpdateData op: c.group != nil && perm(c, "op")
+//@   assert at call action op: c.group != nil && perm(c, "op")
+//@   assert at call kickClient op: c.group != nil && perm(c, "op")
+//@   assert at call Warn op: c.group != nil && perm(c, "op")
+//@   assert at call New record: c.group != nil && perm(c, "record")
+//@   assert at call AddClient#2 record: c.group != nil && perm(c, "record")
+//@   assert at call DelClient record: c.group != nil && perm(c, "record")
+//@   -- C11: token creation needs 'token', delegates only what the creator holds, for its own group, with an expiry
+//@   assert at call Update#1 maketoken: c.group != nil && perm(c, "token")
+//@   assert at call Update#1 maketoken-own-group: tok$1.Group == c.group.name
+//@   assert at call Update#1 maketoken-flat: !tok$1.IncludeSubgroups
+//@   assert at call Update#1 maketoken-expires: tok$1.Expires != nil
+//@   -- (name$k is the k-th declaration of that name in the function)
+//@   invariant loop 4 delegates-held: forall q int :: 0 <= q && q <= rangeindex$4 ==> perm(c, tok$1.Permissions[q])
+//@   assert at call Update#1 maketoken-delegates: forall q int :: 0 <= q && q < len(tok$1.Permissions) ==> perm(c, tok$1.Permissions[q])
+//@   -- C11: token listing/editing needs 'op' and 'token' and reaches only tokens of the member's own group
+//@   assert at call Get edittoken: c.group != nil && perm(c, "op") && perm(c, "token")
+//@   assert at call Update#2 edittoken-own-group: c.group != nil && perm(c, "op") && perm(c, "token") && old.Group == c.group.name
+//@   assert at call List listtokens: c.group != nil && perm(c, "op") && perm(c, "token") && arg0 == c.group.name
+//@   -- C11: a member may set only its own data
+//@   assert at call GetClients#5 own-data: c.group != nil && m$1.Dest == c.id
+//@   -- C15: whatever is forwarded carries the true identity of the sender (or none), and is marked privileged exactly for operators
+//@   assert at call broadcast#1 authentic: (m$1.Source == "" || m$1.Source == c.id) && (m$1.Username == nil || *m$1.Username == c.username)
+//@        && arg_m.Source == m$1.Source && same(arg_m.Username, m$1.Username) && arg_m.Dest == m$1.Dest && arg_m.Privileged == perm(c, "op")
+//@        && arg_m.Type == m$1.Type && arg_m.Kind == m$1.Kind && same(arg_m.Value, m$1.Value)
+//@   assert at call write#4 authentic: (m$1.Source == "" || m$1.Source == c.id) && (m$1.Username == nil || *m$1.Username == c.username)
+//@        && arg_m.Source == m$1.Source && same(arg_m.Username, m$1.Username) && arg_m.Dest == m$1.Dest && arg_m.Privileged == perm(c, "op")
+//@        && arg_m.Type == m$1.Type && arg_m.Kind == m$1.Kind && same(arg_m.Value, m$1.Value)
+//@   -- C15: only broadcast chat is recorded in the history, with the sender's identity
+//@   assert at call AddToChatHistory recorded: m$1.Type == "chat" && m$1.Dest == "" && arg_source == m$1.Source && same(arg_user, m$1.Username)
